@@ -135,6 +135,32 @@ Proof.
   rewrite E. reflexivity.
 Qed.
 
+(* rename: the renamed member carries its new name, every array that was counted by the old name is counted by
+   the new one, nothing else changes (types, sizes, flags, order, member count) *)
+Theorem patch_rename ms old new i m :
+  find_member ms old O = Some (i, m) ->
+  exists ms', apply_action ms (ARename old new) = POk ms' /\ length ms' = length ms /\
+    (forall j mj', nth_error ms' j = Some mj' ->
+       exists mj, nth_error ms j = Some mj /\ m_name mj' = (if Nat.eqb j i then new else m_name mj) /\
+         m_bound mj' = (match m_bound mj with Some b => Some (if Nat.eqb b old then new else b) | None => None end) /\
+         m_type mj' = m_type mj /\ m_size mj' = m_size mj /\ m_greedy mj' = m_greedy mj /\ m_opt mj' = m_opt mj).
+Proof.
+  intros Hf. destruct (find_member_spec ms old O i m Hf) as [_ [Hn _]]. rewrite Nat.sub_0_r in Hn.
+  cbn [apply_action]. rewrite Hf. eexists. split; [reflexivity|]. split; [rewrite map_length, set_nth_length; reflexivity|].
+  intros j mj' Hj. rewrite nth_error_map in Hj.
+  destruct (nth_error (set_nth ms i _) j) as [x|] eqn:Ex; [|discriminate]. injection Hj as <-.
+  assert (Hx : exists mj, nth_error ms j = Some mj /\ m_name x = (if Nat.eqb j i then new else m_name mj) /\
+             m_bound x = m_bound mj /\ m_type x = m_type mj /\ m_size x = m_size mj /\ m_greedy x = m_greedy mj /\ m_opt x = m_opt mj).
+  { destruct (Nat.eqb j i) eqn:Eji.
+    - apply Nat.eqb_eq in Eji. subst j. rewrite set_nth_same in Ex by (apply nth_error_Some; congruence).
+      injection Ex as <-. exists m. repeat split; assumption || reflexivity.
+    - apply Nat.eqb_neq in Eji. rewrite set_nth_other in Ex by congruence. exists x. repeat split; assumption || reflexivity. }
+  destruct Hx as [mj [H1 [H2 [H3 [H4 [H5 [H6 H7]]]]]]]. exists mj. split; [exact H1|].
+  unfold rebind. rewrite H3. destruct (m_bound mj) as [b|] eqn:Eb.
+  - destruct (Nat.eqb b old); cbn; repeat split; assumption.
+  - repeat split; assumption.
+Qed.
+
 (* remove and insert *)
 Theorem patch_remove ms x i m : find_member ms x O = Some (i, m) -> apply_action ms (ARemove x) = POk (del_nth ms i).
 Proof. intros Hf. cbn [apply_action]. rewrite Hf. reflexivity. Qed.
